@@ -1,3 +1,4 @@
+import MgpuProofs.C20_Quiesce
 import MgpuProofs.C20_EngineLemmas
 import MgpuProofs.C20_EngineQuiet
 import MgpuProofs.C20_EngineLens
@@ -66,6 +67,27 @@ theorem engine_queue_empty_finished (G S C : Nat) (trace : List Kernel) (steps :
   refine ⟨ha, ?_⟩
   rw [Eng.engEnd_fst] at ha ⊢
   refine asleep_finished G S C trace _ hG hS hC ?_ ha
+  intro e he
+  exact (Eng.mem_allEvs_iff _ e).1 (Eng.handled_inRange _ _ steps
+    (by intro x hx; rw [List.mem_singleton.1 hx]; exact (Eng.mem_allEvs_iff _ _).2 trivial) h e he)
+
+/-- **Exactly once, for every engine order.**  The headline of the property without any hypothesis on
+    the event list: whatever order the engine handles its scheduled events in (every frequency
+    assignment, every tie-break, spurious ticks included), when its queue is empty every kernel is
+    reported, everything is idle, and the sub-cores have received AND executed exactly the instructions
+    of the trace, the SMs exactly its warps (`exactly_once_at_quiescence` with its in-range hypothesis
+    discharged by the engine's rules). -/
+theorem engine_exactly_once (G S C : Nat) (trace : List Kernel) (steps : List EStep)
+    (hG : 1 ≤ G) (hS : 1 ≤ S) (hC : 1 ≤ C)
+    (h : EngRun (init false G S C trace) [Ev.drv] steps)
+    (hq : (engEnd (init false G S C trace) [Ev.drv] steps).2 = []) :
+    finished (engEnd (init false G S C trace) [Ev.drv] steps).1 = true ∧
+    receivedInsts (engEnd (init false G S C trace) [Ev.drv] steps).1 = instsOfTrace trace ∧
+    executedInsts (engEnd (init false G S C trace) [Ev.drv] steps).1 = instsOfTrace trace ∧
+    receivedWarps (engEnd (init false G S C trace) [Ev.drv] steps).1 = warpsOfTrace trace := by
+  have ha := (engine_queue_empty_finished G S C trace steps hG hS hC h hq).1
+  rw [Eng.engEnd_fst] at ha ⊢
+  refine quiescent_totals G S C trace _ hG hS hC ?_ ha
   intro e he
   exact (Eng.mem_allEvs_iff _ e).1 (Eng.handled_inRange _ _ steps
     (by intro x hx; rw [List.mem_singleton.1 hx]; exact (Eng.mem_allEvs_iff _ _).2 trivial) h e he)
@@ -244,6 +266,14 @@ theorem engine_spurious_tick_invisible (G S C : Nat) (trace : List Kernel) (step
 example :
     awakeOf (engEnd (init false 1 1 4 [[[0, 3, 2, 1, 0]]]) [Ev.drv] (realRun.take 46)).1 (.sub 2) = false ∧
     (realRun.drop 46).head? = some (.sub 2, []) := by
+  decide +kernel
+
+/-- `engine_exactly_once` on the recorded real order (hypotheses: the example after `realRun`): the queue is
+    empty and the 6 instructions of warps {0,3,2,1,0} were executed, 5 warps received -/
+example :
+    (engEnd (init false 1 1 4 [[[0, 3, 2, 1, 0]]]) [Ev.drv] realRun).2 = [] ∧
+    executedInsts (engEnd (init false 1 1 4 [[[0, 3, 2, 1, 0]]]) [Ev.drv] realRun).1 = 6 ∧
+    receivedWarps (engEnd (init false 1 1 4 [[[0, 3, 2, 1, 0]]]) [Ev.drv] realRun).1 = 5 := by
   decide +kernel
 
 end C20
